@@ -166,6 +166,15 @@ def run_stream(ctx, prop, st, seeds):
                 name = f"correspondence:{st['name']}"
                 if name not in [b0.split(" ")[0] for b0 in ctx.broken]:
                     ctx.broken.append(f"{name} first-disagreement: op `{o}` impl `{i}` model `{m}` (batch {tag})")
+        if "post" in st:
+            for a_op, b_op, why in st["post"](ctx, ops, impl)[:2]:
+                total["fails"] += 1
+                case = [a_op, b_op]
+                im2, mo2, ve2 = run_stream_once(ctx, st, binpath, case, "rep")
+                p = write_replay(ctx, f"{st['name']}-{len(ctx.violations)}", dict(
+                    kind="failing-input", stream=st["name"], pkg=st["pkg"], ops=case, impl=im2, model=mo2, verdict=ve2,
+                    explanation="cross-line property check on the implementation's outputs: " + why))
+                ctx.violations.append((p, True))
     cov = ctx.cov.setdefault("streams", {})
     cov[st["name"]] = dict(evaluations=total["evals"], distinct_nontrivial=len(total["distinct"]),
                            op_histogram=dict(total["ophist"]), outcome_histogram=dict(total["outhist"].most_common(40)),
